@@ -290,7 +290,9 @@ func (s *BaseVisitor) EnterOC_MergeAction(c *parser.OC_MergeActionContext) {}
 
 func (s *BaseVisitor) EnterOC_Create(c *parser.OC_CreateContext) {}
 
-func (s *BaseVisitor) EnterOC_CreateUnique(c *parser.OC_CreateUniqueContext) {}
+func (s *BaseVisitor) EnterOC_CreateUnique(c *parser.OC_CreateUniqueContext) {
+	s.newUnsupportedRuleError(c)
+}
 
 func (s *BaseVisitor) EnterOC_Set(c *parser.OC_SetContext) {}
 
@@ -430,7 +432,9 @@ func (s *BaseVisitor) EnterOC_UnaryAddOrSubtractExpression(c *parser.OC_UnaryAdd
 func (s *BaseVisitor) EnterOC_NonArithmeticOperatorExpression(c *parser.OC_NonArithmeticOperatorExpressionContext) {
 }
 
-func (s *BaseVisitor) EnterOC_ListOperatorExpression(c *parser.OC_ListOperatorExpressionContext) {}
+func (s *BaseVisitor) EnterOC_ListOperatorExpression(c *parser.OC_ListOperatorExpressionContext) {
+	s.newUnsupportedRuleError(c)
+}
 
 func (s *BaseVisitor) EnterOC_PropertyLookup(c *parser.OC_PropertyLookupContext) {}
 
@@ -438,9 +442,13 @@ func (s *BaseVisitor) EnterOC_Atom(c *parser.OC_AtomContext) {}
 
 func (s *BaseVisitor) EnterOC_CaseAlternative(c *parser.OC_CaseAlternativeContext) {}
 
-func (s *BaseVisitor) EnterOC_ListComprehension(c *parser.OC_ListComprehensionContext) {}
+func (s *BaseVisitor) EnterOC_ListComprehension(c *parser.OC_ListComprehensionContext) {
+	s.newUnsupportedRuleError(c)
+}
 
-func (s *BaseVisitor) EnterOC_PatternComprehension(c *parser.OC_PatternComprehensionContext) {}
+func (s *BaseVisitor) EnterOC_PatternComprehension(c *parser.OC_PatternComprehensionContext) {
+	s.newUnsupportedRuleError(c)
+}
 
 func (s *BaseVisitor) EnterOC_Quantifier(c *parser.OC_QuantifierContext) {}
 
